@@ -1,296 +1,296 @@
 /-
-C04 proofs — structural invariants (snapEpoch, pend, painting): preservation by `exec` and `begin`.
+C04 proofs — structural invariants (painting, walked): preservation by `exec` and `begin`.
 -/
-import TbbVerif.Proofs.C04.ReachD
+import TbbVerif.Proofs.C04.ReachLemmas2
 
 namespace TbbVerif.C04
-variable {cfg : Cfg} {reg : List Nat} {s : St} {t : Nat}
+variable {cfg : Cfg} {r : List RF} {reg : List Nat} {s : St} {t : Nat}
 
-theorem snapEpoch_exec_c (hS : Struct reg s) (hO : Orig s) (hR : Reach reg s) :
-    ∀ t' x p n L, (execCancel C reg s t).pc t' = .bSpecL x p n → (execCancel C reg s t).lst p = some L → n ≤ (execCancel C reg s t).epoch L := by
-  have g0 := hR.snapEpoch
-  have g0t := hR.snapEpoch t
-  have g1 := hR.epochLe
-  have g2 := hR.syncG
-  have g2t := hR.syncG t
-  have g3 := hS.bindAlive
-  have g3t := hS.bindAlive t
-  have g4 := hS.ownsSt
-  have g4t := hS.ownsSt t
-  have g5 := hS.dyingOk
-  have g5t := hS.dyingOk t
+theorem painting_exec_c (hS : Struct reg s) (hO : Orig s) (hH : Hint s) (hR : Reach reg s) :
+    ∀ t' a i x chain rest, (execCancel (C r) reg s t).pc t' = .cPaint a i x chain rest → Vf (execCancel (C r) reg s t).par (execCancel (C r) reg s t).can (execCancel (C r) reg s t).rst (execCancel (C r) reg s t).oc ((execCancel (C r) reg s t).pst (execCancel (C r) reg s t).G) a x ∨ chain.head? = some x := by
+  have g0 := hR.painting
+  have g0t := hR.painting t
+  have g1 := hR.copyTrue
+  have g1t := hR.copyTrue t
+  have g2 := hR.pstLe
+  have g3 := hS.regMx
+  have g3t := hS.regMx t
+  have l0 := @vf_cas reg s hS
   unfold execCancel
   try unfold walkNext
   try unfold afterHint
+  try unfold applyReset
   try simp only [C_propHolds, C_copyNeverClears, afterLists, ↓reduceIte, Bool.true_and]
   repeat' split
   all_goals (try rw [‹s.pc t = _›] at g0t)
-  all_goals (try simp [Pc.bindParent, Pc.owns, Pc.destroying, okParent] at g0t)
-  all_goals (try rw [‹s.pc t = _›] at g2t)
-  all_goals (try simp [Pc.bindParent, Pc.owns, Pc.destroying, okParent] at g2t)
+  all_goals (try simp [Pc.copyVal, Pc.inReg] at g0t)
+  all_goals (try rw [‹s.pc t = _›] at g1t)
+  all_goals (try simp [Pc.copyVal, Pc.inReg] at g1t)
   all_goals (try rw [‹s.pc t = _›] at g3t)
-  all_goals (try simp [Pc.bindParent, Pc.owns, Pc.destroying, okParent] at g3t)
-  all_goals (try rw [‹s.pc t = _›] at g4t)
-  all_goals (try simp [Pc.bindParent, Pc.owns, Pc.destroying, okParent] at g4t)
-  all_goals (try rw [‹s.pc t = _›] at g5t)
-  all_goals (try simp [Pc.bindParent, Pc.owns, Pc.destroying, okParent] at g5t)
-  all_goals (intro t' x p n L h1 h2; by_cases ht : t' = t <;> first | (subst ht; try simp [C, upd_apply, afterLists, nextList, Pc.bindParent, Pc.owns, Pc.destroying, okParent] at h1 h2 ⊢) | (try simp [ht, C, upd_apply, afterLists, nextList] at h1 h2 ⊢))
-  all_goals grind [Pc.bindParent, Pc.owns, Pc.destroying, okParent]
+  all_goals (try simp [Pc.copyVal, Pc.inReg] at g3t)
+  all_goals (intro t' a i x chain rest h1; by_cases ht : t' = t <;> first | (subst ht; try simp [C, St.eff, upd_apply, afterLists, nextList, Pc.copyVal, Pc.inReg] at h1 ⊢) | (try simp [ht, C, St.eff, upd_apply, afterLists, nextList] at h1 ⊢))
+  all_goals grind [Pc.copyVal, Pc.inReg , chainUp_sound, vf_upd_true, vf_upd_true_self, vf_reset, vf_exit]
 
-theorem snapEpoch_exec_b (hS : Struct reg s) (hO : Orig s) (hR : Reach reg s) :
-    ∀ t' x p n L, (execBind C s t).pc t' = .bSpecL x p n → (execBind C s t).lst p = some L → n ≤ (execBind C s t).epoch L := by
-  have g0 := hR.snapEpoch
-  have g0t := hR.snapEpoch t
-  have g1 := hR.epochLe
-  have g2 := hR.syncG
-  have g2t := hR.syncG t
-  have g3 := hS.bindAlive
-  have g3t := hS.bindAlive t
-  have g4 := hS.ownsSt
-  have g4t := hS.ownsSt t
-  have g5 := hS.dyingOk
-  have g5t := hS.dyingOk t
+theorem painting_exec_b (hS : Struct reg s) (hO : Orig s) (hH : Hint s) (hR : Reach reg s) :
+    ∀ t' a i x chain rest, (execBind (C r) s t).pc t' = .cPaint a i x chain rest → Vf (execBind (C r) s t).par (execBind (C r) s t).can (execBind (C r) s t).rst (execBind (C r) s t).oc ((execBind (C r) s t).pst (execBind (C r) s t).G) a x ∨ chain.head? = some x := by
+  have g0 := hR.painting
+  have g0t := hR.painting t
+  have g1 := hR.copyTrue
+  have g1t := hR.copyTrue t
+  have g2 := hR.pstLe
+  have g3 := hS.regMx
+  have g3t := hS.regMx t
+  have l0 := @vf_cas reg s hS
   unfold execBind
   try unfold walkNext
   try unfold afterHint
+  try unfold applyReset
   try simp only [C_propHolds, C_copyNeverClears, afterLists, ↓reduceIte, Bool.true_and]
   repeat' split
   all_goals (try rw [‹s.pc t = _›] at g0t)
-  all_goals (try simp [Pc.bindParent, Pc.owns, Pc.destroying, okParent] at g0t)
-  all_goals (try rw [‹s.pc t = _›] at g2t)
-  all_goals (try simp [Pc.bindParent, Pc.owns, Pc.destroying, okParent] at g2t)
+  all_goals (try simp [Pc.copyVal, Pc.inReg] at g0t)
+  all_goals (try rw [‹s.pc t = _›] at g1t)
+  all_goals (try simp [Pc.copyVal, Pc.inReg] at g1t)
   all_goals (try rw [‹s.pc t = _›] at g3t)
-  all_goals (try simp [Pc.bindParent, Pc.owns, Pc.destroying, okParent] at g3t)
-  all_goals (try rw [‹s.pc t = _›] at g4t)
-  all_goals (try simp [Pc.bindParent, Pc.owns, Pc.destroying, okParent] at g4t)
-  all_goals (try rw [‹s.pc t = _›] at g5t)
-  all_goals (try simp [Pc.bindParent, Pc.owns, Pc.destroying, okParent] at g5t)
-  all_goals (intro t' x p n L h1 h2; by_cases ht : t' = t <;> first | (subst ht; try simp [C, upd_apply, afterLists, nextList, Pc.bindParent, Pc.owns, Pc.destroying, okParent] at h1 h2 ⊢) | (try simp [ht, C, upd_apply, afterLists, nextList] at h1 h2 ⊢))
-  all_goals grind [Pc.bindParent, Pc.owns, Pc.destroying, okParent]
+  all_goals (try simp [Pc.copyVal, Pc.inReg] at g3t)
+  all_goals (intro t' a i x chain rest h1; by_cases ht : t' = t <;> first | (subst ht; try simp [C, St.eff, upd_apply, afterLists, nextList, Pc.copyVal, Pc.inReg] at h1 ⊢) | (try simp [ht, C, St.eff, upd_apply, afterLists, nextList] at h1 ⊢))
+  all_goals grind [Pc.copyVal, Pc.inReg , chainUp_sound, vf_upd_true, vf_upd_true_self, vf_reset, vf_exit]
 
-theorem snapEpoch_exec_o (hS : Struct reg s) (hO : Orig s) (hR : Reach reg s) :
-    ∀ t' x p n L, (execOther s t).pc t' = .bSpecL x p n → (execOther s t).lst p = some L → n ≤ (execOther s t).epoch L := by
-  have g0 := hR.snapEpoch
-  have g0t := hR.snapEpoch t
-  have g1 := hR.epochLe
-  have g2 := hR.syncG
-  have g2t := hR.syncG t
-  have g3 := hS.bindAlive
-  have g3t := hS.bindAlive t
-  have g4 := hS.ownsSt
-  have g4t := hS.ownsSt t
-  have g5 := hS.dyingOk
-  have g5t := hS.dyingOk t
+theorem painting_exec_o (hS : Struct reg s) (hO : Orig s) (hH : Hint s) (hR : Reach reg s) :
+    ∀ t' a i x chain rest, (execOther s t).pc t' = .cPaint a i x chain rest → Vf (execOther s t).par (execOther s t).can (execOther s t).rst (execOther s t).oc ((execOther s t).pst (execOther s t).G) a x ∨ chain.head? = some x := by
+  have g0 := hR.painting
+  have g0t := hR.painting t
+  have g1 := hR.copyTrue
+  have g1t := hR.copyTrue t
+  have g2 := hR.pstLe
+  have g3 := hS.regMx
+  have g3t := hS.regMx t
+  have l0 := @vf_cas reg s hS
   unfold execOther
   try unfold walkNext
   try unfold afterHint
+  try unfold applyReset
   try simp only [C_propHolds, C_copyNeverClears, afterLists, ↓reduceIte, Bool.true_and]
   repeat' split
   all_goals (try rw [‹s.pc t = _›] at g0t)
-  all_goals (try simp [Pc.bindParent, Pc.owns, Pc.destroying, okParent] at g0t)
-  all_goals (try rw [‹s.pc t = _›] at g2t)
-  all_goals (try simp [Pc.bindParent, Pc.owns, Pc.destroying, okParent] at g2t)
+  all_goals (try simp [Pc.copyVal, Pc.inReg] at g0t)
+  all_goals (try rw [‹s.pc t = _›] at g1t)
+  all_goals (try simp [Pc.copyVal, Pc.inReg] at g1t)
   all_goals (try rw [‹s.pc t = _›] at g3t)
-  all_goals (try simp [Pc.bindParent, Pc.owns, Pc.destroying, okParent] at g3t)
-  all_goals (try rw [‹s.pc t = _›] at g4t)
-  all_goals (try simp [Pc.bindParent, Pc.owns, Pc.destroying, okParent] at g4t)
-  all_goals (try rw [‹s.pc t = _›] at g5t)
-  all_goals (try simp [Pc.bindParent, Pc.owns, Pc.destroying, okParent] at g5t)
-  all_goals (intro t' x p n L h1 h2; by_cases ht : t' = t <;> first | (subst ht; try simp [C, upd_apply, afterLists, nextList, Pc.bindParent, Pc.owns, Pc.destroying, okParent] at h1 h2 ⊢) | (try simp [ht, C, upd_apply, afterLists, nextList] at h1 h2 ⊢))
-  all_goals grind [Pc.bindParent, Pc.owns, Pc.destroying, okParent]
+  all_goals (try simp [Pc.copyVal, Pc.inReg] at g3t)
+  all_goals (intro t' a i x chain rest h1; by_cases ht : t' = t <;> first | (subst ht; try simp [C, St.eff, upd_apply, afterLists, nextList, Pc.copyVal, Pc.inReg] at h1 ⊢) | (try simp [ht, C, St.eff, upd_apply, afterLists, nextList] at h1 ⊢))
+  all_goals grind [Pc.copyVal, Pc.inReg , chainUp_sound, vf_upd_true, vf_upd_true_self, vf_reset, vf_exit]
 
-theorem snapEpoch_exec (hS : Struct reg s) (hO : Orig s) (hR : Reach reg s) :
-    ∀ t' x p n L, (exec C reg s t).pc t' = .bSpecL x p n → (exec C reg s t).lst p = some L → n ≤ (exec C reg s t).epoch L := by
+theorem painting_exec (hS : Struct reg s) (hO : Orig s) (hH : Hint s) (hR : Reach reg s) :
+    ∀ t' a i x chain rest, (exec (C r) reg s t).pc t' = .cPaint a i x chain rest → Vf (exec (C r) reg s t).par (exec (C r) reg s t).can (exec (C r) reg s t).rst (exec (C r) reg s t).oc ((exec (C r) reg s t).pst (exec (C r) reg s t).G) a x ∨ chain.head? = some x := by
   unfold exec
   split
-  · exact snapEpoch_exec_c hS hO hR
+  · exact painting_exec_c hS hO hH hR
   · split
-    · exact snapEpoch_exec_b hS hO hR
-    · exact snapEpoch_exec_o hS hO hR
+    · exact painting_exec_b hS hO hH hR
+    · exact painting_exec_o hS hO hH hR
 
-theorem snapEpoch_begin (hS : Struct reg s) (hO : Orig s) (hR : Reach reg s) (hi : s.pc t = .idle) :
-    ∀ t' x p n L, (begin reg s t).pc t' = .bSpecL x p n → (begin reg s t).lst p = some L → n ≤ (begin reg s t).epoch L := by
-  have g0 := hR.snapEpoch
-  have g0t := hR.snapEpoch t
-  have g1 := hR.epochLe
-  have g2 := hR.syncG
-  have g2t := hR.syncG t
-  have g3 := hS.bindAlive
-  have g3t := hS.bindAlive t
-  have g4 := hS.ownsSt
-  have g4t := hS.ownsSt t
-  have g5 := hS.dyingOk
-  have g5t := hS.dyingOk t
+theorem painting_begin (hS : Struct reg s) (hO : Orig s) (hH : Hint s) (hR : Reach reg s) (hi : s.pc t = .idle) :
+    ∀ t' a i x chain rest, (begin (C r) reg s t).pc t' = .cPaint a i x chain rest → Vf (begin (C r) reg s t).par (begin (C r) reg s t).can (begin (C r) reg s t).rst (begin (C r) reg s t).oc ((begin (C r) reg s t).pst (begin (C r) reg s t).G) a x ∨ chain.head? = some x := by
+  have g0 := hR.painting
+  have g0t := hR.painting t
+  have g1 := hR.copyTrue
+  have g1t := hR.copyTrue t
+  have g2 := hR.pstLe
+  have g3 := hS.regMx
+  have g3t := hS.regMx t
+  have l0 := @vf_cas reg s hS
   begin_cases
   all_goals (try rw [hi] at g0t)
-  all_goals (try simp [Pc.bindParent, Pc.owns, Pc.destroying, okParent] at g0t)
-  all_goals (try rw [hi] at g2t)
-  all_goals (try simp [Pc.bindParent, Pc.owns, Pc.destroying, okParent] at g2t)
+  all_goals (try simp [Pc.copyVal, Pc.inReg] at g0t)
+  all_goals (try rw [hi] at g1t)
+  all_goals (try simp [Pc.copyVal, Pc.inReg] at g1t)
   all_goals (try rw [hi] at g3t)
-  all_goals (try simp [Pc.bindParent, Pc.owns, Pc.destroying, okParent] at g3t)
-  all_goals (try rw [hi] at g4t)
-  all_goals (try simp [Pc.bindParent, Pc.owns, Pc.destroying, okParent] at g4t)
-  all_goals (try rw [hi] at g5t)
-  all_goals (try simp [Pc.bindParent, Pc.owns, Pc.destroying, okParent] at g5t)
-  all_goals (intro t' x p n L h1 h2; by_cases ht : t' = t <;> first | (subst ht; try simp [C, upd_apply, afterLists, nextList, Pc.bindParent, Pc.owns, Pc.destroying, okParent] at h1 h2 ⊢) | (try simp [ht, C, upd_apply, afterLists, nextList] at h1 h2 ⊢))
-  all_goals grind [Pc.bindParent, Pc.owns, Pc.destroying, okParent]
+  all_goals (try simp [Pc.copyVal, Pc.inReg] at g3t)
+  all_goals (intro t' a i x chain rest h1; by_cases ht : t' = t <;> first | (subst ht; try simp [C, St.eff, upd_apply, afterLists, nextList, Pc.copyVal, Pc.inReg] at h1 ⊢) | (try simp [ht, C, St.eff, upd_apply, afterLists, nextList] at h1 ⊢))
+  all_goals grind [Pc.copyVal, Pc.inReg , chainUp_sound, vf_upd_true, vf_upd_true_self, vf_reset, vf_exit]
 
-theorem pend_exec_c (hS : Struct reg s) (hO : Orig s) (hR : Reach reg s) :
-    ∀ a, 1 ≤ (execCancel C reg s t).wins a → PassedUpTo (execCancel C reg s t).skip (execCancel C reg s t).srcOf (execCancel C reg s t).G a ∨ ∃ t', ((execCancel C reg s t).pc t').preWalk = some a := by
-  have g0 := hR.pend
-  have g1 := hR.wonCan
-  have g1t := hR.wonCan t
+set_option maxHeartbeats 1600000 in
+theorem walked_exec_c (hS : Struct reg s) (hO : Orig s) (hH : Hint s) (hR : Reach reg s) :
+    ∀ t' a i pend L z, ((execCancel (C r) reg s t).pc t').pending = some (a, i, pend) → reg[i]? = some L → z ∈ (execCancel (C r) reg s t).items L → z ∈ pend ∨ (Anc (execCancel (C r) reg s t).par z a → Vf (execCancel (C r) reg s t).par (execCancel (C r) reg s t).can (execCancel (C r) reg s t).rst (execCancel (C r) reg s t).oc ((execCancel (C r) reg s t).pst (execCancel (C r) reg s t).G) a z) := by
+  have g0 := hR.walked
+  have g0t := hR.walked t
+  have g1 := hR.painting
+  have g1t := hR.painting t
+  have g2 := hR.copyTrue
+  have g2t := hR.copyTrue t
+  have g3 := hR.pstLe
+  have g4 := hS.regMx
+  have g4t := hS.regMx t
+  have g5 := hS.lmxWalk
+  have g5t := hS.lmxWalk t
+  have g6 := hS.lmxBind
+  have g6t := hS.lmxBind t
+  have g7 := hS.createdPar
+  have g8 := hS.parDone
+  have g9 := hS.itemsOk
+  have g9t := hS.itemsOk t
+  have l0 := @vf_cas reg s hS
   unfold execCancel
   try unfold walkNext
   try unfold afterHint
+  try unfold applyReset
   try simp only [C_propHolds, C_copyNeverClears, afterLists, ↓reduceIte, Bool.true_and]
   repeat' split
+  all_goals (try rw [‹s.pc t = _›] at g0t)
+  all_goals (try simp [Pc.pending, Pc.pending_walk, Pc.walkIdx, Pc.copyVal, Pc.inReg, nextList_pending, nextList_inReg, nextList_walkIdx, nextList_copyVal] at g0t)
   all_goals (try rw [‹s.pc t = _›] at g1t)
-  all_goals (try simp [Pc.preWalk, Pc.wonSrc, passed_upd_skip, passed_bump] at g1t)
-  all_goals (intro a h1; try simp [C, upd_apply, afterLists, nextList] at h1 ⊢)
-  all_goals grind [Pc.preWalk, Pc.wonSrc, passed_upd_skip, passed_bump]
+  all_goals (try simp [Pc.pending, Pc.pending_walk, Pc.walkIdx, Pc.copyVal, Pc.inReg, nextList_pending, nextList_inReg, nextList_walkIdx, nextList_copyVal] at g1t)
+  all_goals (try rw [‹s.pc t = _›] at g2t)
+  all_goals (try simp [Pc.pending, Pc.pending_walk, Pc.walkIdx, Pc.copyVal, Pc.inReg, nextList_pending, nextList_inReg, nextList_walkIdx, nextList_copyVal] at g2t)
+  all_goals (try rw [‹s.pc t = _›] at g4t)
+  all_goals (try simp [Pc.pending, Pc.pending_walk, Pc.walkIdx, Pc.copyVal, Pc.inReg, nextList_pending, nextList_inReg, nextList_walkIdx, nextList_copyVal] at g4t)
+  all_goals (try rw [‹s.pc t = _›] at g5t)
+  all_goals (try simp [Pc.pending, Pc.pending_walk, Pc.walkIdx, Pc.copyVal, Pc.inReg, nextList_pending, nextList_inReg, nextList_walkIdx, nextList_copyVal] at g5t)
+  all_goals (try rw [‹s.pc t = _›] at g6t)
+  all_goals (try simp [Pc.pending, Pc.pending_walk, Pc.walkIdx, Pc.copyVal, Pc.inReg, nextList_pending, nextList_inReg, nextList_walkIdx, nextList_copyVal] at g6t)
+  all_goals (try rw [‹s.pc t = _›] at g9t)
+  all_goals (try simp [Pc.pending, Pc.pending_walk, Pc.walkIdx, Pc.copyVal, Pc.inReg, nextList_pending, nextList_inReg, nextList_walkIdx, nextList_copyVal] at g9t)
+  all_goals (have gw := fun t' a i pend (h : (s.pc t').pending = some (a, i, pend)) => (Pc.pending_walk h).1)
+  all_goals (intro t' a i pend L z h1 h2 h3; by_cases ht : t' = t <;> first | (subst ht; (try simp only [upd_same, setPc_pc, finishCancel_pc, nextList_pending, nextList_inReg, nextList_walkIdx, nextList_copyVal] at h1 h2 h3 ⊢); try simp [C, St.eff, upd_apply, afterLists, Pc.pending, Pc.pending_walk, Pc.walkIdx, Pc.copyVal, Pc.inReg, nextList_pending, nextList_inReg, nextList_walkIdx, nextList_copyVal] at h1 h2 h3 ⊢) | (try simp [ht, C, St.eff, upd_apply, afterLists] at h1 h2 h3 ⊢))
+  all_goals grind [Pc.pending, Pc.pending_walk, Pc.walkIdx, Pc.copyVal, Pc.inReg, nextList_pending, nextList_inReg, nextList_walkIdx, nextList_copyVal , → Pc.pending_inReg, chain_none_not_anc, chain_some_head, anc_irrefl_s, anc_cas_back, ne_of_registered_created, List.mem_cons, List.mem_of_mem_erase, vf_upd_true, vf_upd_true_self, vf_reset, vf_exit, vf_can]
 
-theorem pend_exec_b (hS : Struct reg s) (hO : Orig s) (hR : Reach reg s) :
-    ∀ a, 1 ≤ (execBind C s t).wins a → PassedUpTo (execBind C s t).skip (execBind C s t).srcOf (execBind C s t).G a ∨ ∃ t', ((execBind C s t).pc t').preWalk = some a := by
-  have g0 := hR.pend
-  have g1 := hR.wonCan
-  have g1t := hR.wonCan t
+set_option maxHeartbeats 1600000 in
+theorem walked_exec_b (hS : Struct reg s) (hO : Orig s) (hH : Hint s) (hR : Reach reg s) :
+    ∀ t' a i pend L z, ((execBind (C r) s t).pc t').pending = some (a, i, pend) → reg[i]? = some L → z ∈ (execBind (C r) s t).items L → z ∈ pend ∨ (Anc (execBind (C r) s t).par z a → Vf (execBind (C r) s t).par (execBind (C r) s t).can (execBind (C r) s t).rst (execBind (C r) s t).oc ((execBind (C r) s t).pst (execBind (C r) s t).G) a z) := by
+  have g0 := hR.walked
+  have g0t := hR.walked t
+  have g1 := hR.painting
+  have g1t := hR.painting t
+  have g2 := hR.copyTrue
+  have g2t := hR.copyTrue t
+  have g3 := hR.pstLe
+  have g4 := hS.regMx
+  have g4t := hS.regMx t
+  have g5 := hS.lmxWalk
+  have g5t := hS.lmxWalk t
+  have g6 := hS.lmxBind
+  have g6t := hS.lmxBind t
+  have g7 := hS.createdPar
+  have g8 := hS.parDone
+  have g9 := hS.itemsOk
+  have g9t := hS.itemsOk t
+  have l0 := @vf_cas reg s hS
   unfold execBind
   try unfold walkNext
   try unfold afterHint
+  try unfold applyReset
   try simp only [C_propHolds, C_copyNeverClears, afterLists, ↓reduceIte, Bool.true_and]
   repeat' split
+  all_goals (try rw [‹s.pc t = _›] at g0t)
+  all_goals (try simp [Pc.pending, Pc.pending_walk, Pc.walkIdx, Pc.copyVal, Pc.inReg, nextList_pending, nextList_inReg, nextList_walkIdx, nextList_copyVal] at g0t)
   all_goals (try rw [‹s.pc t = _›] at g1t)
-  all_goals (try simp [Pc.preWalk, Pc.wonSrc, passed_upd_skip, passed_bump] at g1t)
-  all_goals (intro a h1; try simp [C, upd_apply, afterLists, nextList] at h1 ⊢)
-  all_goals grind [Pc.preWalk, Pc.wonSrc, passed_upd_skip, passed_bump]
+  all_goals (try simp [Pc.pending, Pc.pending_walk, Pc.walkIdx, Pc.copyVal, Pc.inReg, nextList_pending, nextList_inReg, nextList_walkIdx, nextList_copyVal] at g1t)
+  all_goals (try rw [‹s.pc t = _›] at g2t)
+  all_goals (try simp [Pc.pending, Pc.pending_walk, Pc.walkIdx, Pc.copyVal, Pc.inReg, nextList_pending, nextList_inReg, nextList_walkIdx, nextList_copyVal] at g2t)
+  all_goals (try rw [‹s.pc t = _›] at g4t)
+  all_goals (try simp [Pc.pending, Pc.pending_walk, Pc.walkIdx, Pc.copyVal, Pc.inReg, nextList_pending, nextList_inReg, nextList_walkIdx, nextList_copyVal] at g4t)
+  all_goals (try rw [‹s.pc t = _›] at g5t)
+  all_goals (try simp [Pc.pending, Pc.pending_walk, Pc.walkIdx, Pc.copyVal, Pc.inReg, nextList_pending, nextList_inReg, nextList_walkIdx, nextList_copyVal] at g5t)
+  all_goals (try rw [‹s.pc t = _›] at g6t)
+  all_goals (try simp [Pc.pending, Pc.pending_walk, Pc.walkIdx, Pc.copyVal, Pc.inReg, nextList_pending, nextList_inReg, nextList_walkIdx, nextList_copyVal] at g6t)
+  all_goals (try rw [‹s.pc t = _›] at g9t)
+  all_goals (try simp [Pc.pending, Pc.pending_walk, Pc.walkIdx, Pc.copyVal, Pc.inReg, nextList_pending, nextList_inReg, nextList_walkIdx, nextList_copyVal] at g9t)
+  all_goals (have gw := fun t' a i pend (h : (s.pc t').pending = some (a, i, pend)) => (Pc.pending_walk h).1)
+  all_goals (intro t' a i pend L z h1 h2 h3; by_cases ht : t' = t <;> first | (subst ht; (try simp only [upd_same, setPc_pc, finishCancel_pc, nextList_pending, nextList_inReg, nextList_walkIdx, nextList_copyVal] at h1 h2 h3 ⊢); try simp [C, St.eff, upd_apply, afterLists, Pc.pending, Pc.pending_walk, Pc.walkIdx, Pc.copyVal, Pc.inReg, nextList_pending, nextList_inReg, nextList_walkIdx, nextList_copyVal] at h1 h2 h3 ⊢) | (try simp [ht, C, St.eff, upd_apply, afterLists] at h1 h2 h3 ⊢))
+  all_goals grind [Pc.pending, Pc.pending_walk, Pc.walkIdx, Pc.copyVal, Pc.inReg, nextList_pending, nextList_inReg, nextList_walkIdx, nextList_copyVal , → Pc.pending_inReg, chain_none_not_anc, chain_some_head, anc_irrefl_s, anc_cas_back, ne_of_registered_created, List.mem_cons, List.mem_of_mem_erase, vf_upd_true, vf_upd_true_self, vf_reset, vf_exit, vf_can]
 
-theorem pend_exec_o (hS : Struct reg s) (hO : Orig s) (hR : Reach reg s) :
-    ∀ a, 1 ≤ (execOther s t).wins a → PassedUpTo (execOther s t).skip (execOther s t).srcOf (execOther s t).G a ∨ ∃ t', ((execOther s t).pc t').preWalk = some a := by
-  have g0 := hR.pend
-  have g1 := hR.wonCan
-  have g1t := hR.wonCan t
+set_option maxHeartbeats 1600000 in
+theorem walked_exec_o (hS : Struct reg s) (hO : Orig s) (hH : Hint s) (hR : Reach reg s) :
+    ∀ t' a i pend L z, ((execOther s t).pc t').pending = some (a, i, pend) → reg[i]? = some L → z ∈ (execOther s t).items L → z ∈ pend ∨ (Anc (execOther s t).par z a → Vf (execOther s t).par (execOther s t).can (execOther s t).rst (execOther s t).oc ((execOther s t).pst (execOther s t).G) a z) := by
+  have g0 := hR.walked
+  have g0t := hR.walked t
+  have g1 := hR.painting
+  have g1t := hR.painting t
+  have g2 := hR.copyTrue
+  have g2t := hR.copyTrue t
+  have g3 := hR.pstLe
+  have g4 := hS.regMx
+  have g4t := hS.regMx t
+  have g5 := hS.lmxWalk
+  have g5t := hS.lmxWalk t
+  have g6 := hS.lmxBind
+  have g6t := hS.lmxBind t
+  have g7 := hS.createdPar
+  have g8 := hS.parDone
+  have g9 := hS.itemsOk
+  have g9t := hS.itemsOk t
+  have l0 := @vf_cas reg s hS
   unfold execOther
   try unfold walkNext
   try unfold afterHint
+  try unfold applyReset
   try simp only [C_propHolds, C_copyNeverClears, afterLists, ↓reduceIte, Bool.true_and]
   repeat' split
+  all_goals (try rw [‹s.pc t = _›] at g0t)
+  all_goals (try simp [Pc.pending, Pc.pending_walk, Pc.walkIdx, Pc.copyVal, Pc.inReg, nextList_pending, nextList_inReg, nextList_walkIdx, nextList_copyVal] at g0t)
   all_goals (try rw [‹s.pc t = _›] at g1t)
-  all_goals (try simp [Pc.preWalk, Pc.wonSrc, passed_upd_skip, passed_bump] at g1t)
-  all_goals (intro a h1; try simp [C, upd_apply, afterLists, nextList] at h1 ⊢)
-  all_goals grind [Pc.preWalk, Pc.wonSrc, passed_upd_skip, passed_bump]
+  all_goals (try simp [Pc.pending, Pc.pending_walk, Pc.walkIdx, Pc.copyVal, Pc.inReg, nextList_pending, nextList_inReg, nextList_walkIdx, nextList_copyVal] at g1t)
+  all_goals (try rw [‹s.pc t = _›] at g2t)
+  all_goals (try simp [Pc.pending, Pc.pending_walk, Pc.walkIdx, Pc.copyVal, Pc.inReg, nextList_pending, nextList_inReg, nextList_walkIdx, nextList_copyVal] at g2t)
+  all_goals (try rw [‹s.pc t = _›] at g4t)
+  all_goals (try simp [Pc.pending, Pc.pending_walk, Pc.walkIdx, Pc.copyVal, Pc.inReg, nextList_pending, nextList_inReg, nextList_walkIdx, nextList_copyVal] at g4t)
+  all_goals (try rw [‹s.pc t = _›] at g5t)
+  all_goals (try simp [Pc.pending, Pc.pending_walk, Pc.walkIdx, Pc.copyVal, Pc.inReg, nextList_pending, nextList_inReg, nextList_walkIdx, nextList_copyVal] at g5t)
+  all_goals (try rw [‹s.pc t = _›] at g6t)
+  all_goals (try simp [Pc.pending, Pc.pending_walk, Pc.walkIdx, Pc.copyVal, Pc.inReg, nextList_pending, nextList_inReg, nextList_walkIdx, nextList_copyVal] at g6t)
+  all_goals (try rw [‹s.pc t = _›] at g9t)
+  all_goals (try simp [Pc.pending, Pc.pending_walk, Pc.walkIdx, Pc.copyVal, Pc.inReg, nextList_pending, nextList_inReg, nextList_walkIdx, nextList_copyVal] at g9t)
+  all_goals (have gw := fun t' a i pend (h : (s.pc t').pending = some (a, i, pend)) => (Pc.pending_walk h).1)
+  all_goals (intro t' a i pend L z h1 h2 h3; by_cases ht : t' = t <;> first | (subst ht; (try simp only [upd_same, setPc_pc, finishCancel_pc, nextList_pending, nextList_inReg, nextList_walkIdx, nextList_copyVal] at h1 h2 h3 ⊢); try simp [C, St.eff, upd_apply, afterLists, Pc.pending, Pc.pending_walk, Pc.walkIdx, Pc.copyVal, Pc.inReg, nextList_pending, nextList_inReg, nextList_walkIdx, nextList_copyVal] at h1 h2 h3 ⊢) | (try simp [ht, C, St.eff, upd_apply, afterLists] at h1 h2 h3 ⊢))
+  all_goals grind [Pc.pending, Pc.pending_walk, Pc.walkIdx, Pc.copyVal, Pc.inReg, nextList_pending, nextList_inReg, nextList_walkIdx, nextList_copyVal , → Pc.pending_inReg, chain_none_not_anc, chain_some_head, anc_irrefl_s, anc_cas_back, ne_of_registered_created, List.mem_cons, List.mem_of_mem_erase, vf_upd_true, vf_upd_true_self, vf_reset, vf_exit, vf_can]
 
-theorem pend_exec (hS : Struct reg s) (hO : Orig s) (hR : Reach reg s) :
-    ∀ a, 1 ≤ (exec C reg s t).wins a → PassedUpTo (exec C reg s t).skip (exec C reg s t).srcOf (exec C reg s t).G a ∨ ∃ t', ((exec C reg s t).pc t').preWalk = some a := by
+theorem walked_exec (hS : Struct reg s) (hO : Orig s) (hH : Hint s) (hR : Reach reg s) :
+    ∀ t' a i pend L z, ((exec (C r) reg s t).pc t').pending = some (a, i, pend) → reg[i]? = some L → z ∈ (exec (C r) reg s t).items L → z ∈ pend ∨ (Anc (exec (C r) reg s t).par z a → Vf (exec (C r) reg s t).par (exec (C r) reg s t).can (exec (C r) reg s t).rst (exec (C r) reg s t).oc ((exec (C r) reg s t).pst (exec (C r) reg s t).G) a z) := by
   unfold exec
   split
-  · exact pend_exec_c hS hO hR
+  · exact walked_exec_c hS hO hH hR
   · split
-    · exact pend_exec_b hS hO hR
-    · exact pend_exec_o hS hO hR
+    · exact walked_exec_b hS hO hH hR
+    · exact walked_exec_o hS hO hH hR
 
-theorem pend_begin (hS : Struct reg s) (hO : Orig s) (hR : Reach reg s) (hi : s.pc t = .idle) :
-    ∀ a, 1 ≤ (begin reg s t).wins a → PassedUpTo (begin reg s t).skip (begin reg s t).srcOf (begin reg s t).G a ∨ ∃ t', ((begin reg s t).pc t').preWalk = some a := by
-  have g0 := hR.pend
-  have g1 := hR.wonCan
-  have g1t := hR.wonCan t
-  begin_cases
-  all_goals (try rw [hi] at g1t)
-  all_goals (try simp [Pc.preWalk, Pc.wonSrc, passed_upd_skip, passed_bump] at g1t)
-  all_goals (intro a h1; try simp [C, upd_apply, afterLists, nextList] at h1 ⊢)
-  all_goals grind [Pc.preWalk, Pc.wonSrc, passed_upd_skip, passed_bump]
-
-theorem painting_exec_c (hS : Struct reg s) (hO : Orig s) (hR : Reach reg s) :
-    ∀ t' a i x chain rest, (execCancel C reg s t).pc t' = .cPaint a i x chain rest → (execCancel C reg s t).can x = true ∨ chain.head? = some x := by
-  have g0 := hR.painting
-  have g0t := hR.painting t
-  have g1 := hR.noResetPc
-  have g1t := hR.noResetPc t
+set_option maxHeartbeats 1600000 in
+theorem walked_begin (hS : Struct reg s) (hO : Orig s) (hH : Hint s) (hR : Reach reg s) (hi : s.pc t = .idle) :
+    ∀ t' a i pend L z, ((begin (C r) reg s t).pc t').pending = some (a, i, pend) → reg[i]? = some L → z ∈ (begin (C r) reg s t).items L → z ∈ pend ∨ (Anc (begin (C r) reg s t).par z a → Vf (begin (C r) reg s t).par (begin (C r) reg s t).can (begin (C r) reg s t).rst (begin (C r) reg s t).oc ((begin (C r) reg s t).pst (begin (C r) reg s t).G) a z) := by
+  have g0 := hR.walked
+  have g0t := hR.walked t
+  have g1 := hR.painting
+  have g1t := hR.painting t
   have g2 := hR.copyTrue
   have g2t := hR.copyTrue t
-  unfold execCancel
-  try unfold walkNext
-  try unfold afterHint
-  try simp only [C_propHolds, C_copyNeverClears, afterLists, ↓reduceIte, Bool.true_and]
-  repeat' split
-  all_goals (try rw [‹s.pc t = _›] at g0t)
-  all_goals (try simp [chainUp_sound, Pc.copyVal] at g0t)
-  all_goals (try rw [‹s.pc t = _›] at g1t)
-  all_goals (try simp [chainUp_sound, Pc.copyVal] at g1t)
-  all_goals (try rw [‹s.pc t = _›] at g2t)
-  all_goals (try simp [chainUp_sound, Pc.copyVal] at g2t)
-  all_goals (intro t' a i x chain rest h1; by_cases ht : t' = t <;> first | (subst ht; try simp [C, upd_apply, afterLists, nextList, chainUp_sound, Pc.copyVal] at h1 ⊢) | (try simp [ht, C, upd_apply, afterLists, nextList] at h1 ⊢))
-  all_goals grind [chainUp_sound, Pc.copyVal]
-
-theorem painting_exec_b (hS : Struct reg s) (hO : Orig s) (hR : Reach reg s) :
-    ∀ t' a i x chain rest, (execBind C s t).pc t' = .cPaint a i x chain rest → (execBind C s t).can x = true ∨ chain.head? = some x := by
-  have g0 := hR.painting
-  have g0t := hR.painting t
-  have g1 := hR.noResetPc
-  have g1t := hR.noResetPc t
-  have g2 := hR.copyTrue
-  have g2t := hR.copyTrue t
-  unfold execBind
-  try unfold walkNext
-  try unfold afterHint
-  try simp only [C_propHolds, C_copyNeverClears, afterLists, ↓reduceIte, Bool.true_and]
-  repeat' split
-  all_goals (try rw [‹s.pc t = _›] at g0t)
-  all_goals (try simp [chainUp_sound, Pc.copyVal] at g0t)
-  all_goals (try rw [‹s.pc t = _›] at g1t)
-  all_goals (try simp [chainUp_sound, Pc.copyVal] at g1t)
-  all_goals (try rw [‹s.pc t = _›] at g2t)
-  all_goals (try simp [chainUp_sound, Pc.copyVal] at g2t)
-  all_goals (intro t' a i x chain rest h1; by_cases ht : t' = t <;> first | (subst ht; try simp [C, upd_apply, afterLists, nextList, chainUp_sound, Pc.copyVal] at h1 ⊢) | (try simp [ht, C, upd_apply, afterLists, nextList] at h1 ⊢))
-  all_goals grind [chainUp_sound, Pc.copyVal]
-
-theorem painting_exec_o (hS : Struct reg s) (hO : Orig s) (hR : Reach reg s) :
-    ∀ t' a i x chain rest, (execOther s t).pc t' = .cPaint a i x chain rest → (execOther s t).can x = true ∨ chain.head? = some x := by
-  have g0 := hR.painting
-  have g0t := hR.painting t
-  have g1 := hR.noResetPc
-  have g1t := hR.noResetPc t
-  have g2 := hR.copyTrue
-  have g2t := hR.copyTrue t
-  unfold execOther
-  try unfold walkNext
-  try unfold afterHint
-  try simp only [C_propHolds, C_copyNeverClears, afterLists, ↓reduceIte, Bool.true_and]
-  repeat' split
-  all_goals (try rw [‹s.pc t = _›] at g0t)
-  all_goals (try simp [chainUp_sound, Pc.copyVal] at g0t)
-  all_goals (try rw [‹s.pc t = _›] at g1t)
-  all_goals (try simp [chainUp_sound, Pc.copyVal] at g1t)
-  all_goals (try rw [‹s.pc t = _›] at g2t)
-  all_goals (try simp [chainUp_sound, Pc.copyVal] at g2t)
-  all_goals (intro t' a i x chain rest h1; by_cases ht : t' = t <;> first | (subst ht; try simp [C, upd_apply, afterLists, nextList, chainUp_sound, Pc.copyVal] at h1 ⊢) | (try simp [ht, C, upd_apply, afterLists, nextList] at h1 ⊢))
-  all_goals grind [chainUp_sound, Pc.copyVal]
-
-theorem painting_exec (hS : Struct reg s) (hO : Orig s) (hR : Reach reg s) :
-    ∀ t' a i x chain rest, (exec C reg s t).pc t' = .cPaint a i x chain rest → (exec C reg s t).can x = true ∨ chain.head? = some x := by
-  unfold exec
-  split
-  · exact painting_exec_c hS hO hR
-  · split
-    · exact painting_exec_b hS hO hR
-    · exact painting_exec_o hS hO hR
-
-theorem painting_begin (hS : Struct reg s) (hO : Orig s) (hR : Reach reg s) (hi : s.pc t = .idle) :
-    ∀ t' a i x chain rest, (begin reg s t).pc t' = .cPaint a i x chain rest → (begin reg s t).can x = true ∨ chain.head? = some x := by
-  have g0 := hR.painting
-  have g0t := hR.painting t
-  have g1 := hR.noResetPc
-  have g1t := hR.noResetPc t
-  have g2 := hR.copyTrue
-  have g2t := hR.copyTrue t
+  have g3 := hR.pstLe
+  have g4 := hS.regMx
+  have g4t := hS.regMx t
+  have g5 := hS.lmxWalk
+  have g5t := hS.lmxWalk t
+  have g6 := hS.lmxBind
+  have g6t := hS.lmxBind t
+  have g7 := hS.createdPar
+  have g8 := hS.parDone
+  have g9 := hS.itemsOk
+  have g9t := hS.itemsOk t
+  have l0 := @vf_cas reg s hS
   begin_cases
   all_goals (try rw [hi] at g0t)
-  all_goals (try simp [chainUp_sound, Pc.copyVal] at g0t)
+  all_goals (try simp [Pc.pending, Pc.pending_walk, Pc.walkIdx, Pc.copyVal, Pc.inReg, nextList_pending, nextList_inReg, nextList_walkIdx, nextList_copyVal] at g0t)
   all_goals (try rw [hi] at g1t)
-  all_goals (try simp [chainUp_sound, Pc.copyVal] at g1t)
+  all_goals (try simp [Pc.pending, Pc.pending_walk, Pc.walkIdx, Pc.copyVal, Pc.inReg, nextList_pending, nextList_inReg, nextList_walkIdx, nextList_copyVal] at g1t)
   all_goals (try rw [hi] at g2t)
-  all_goals (try simp [chainUp_sound, Pc.copyVal] at g2t)
-  all_goals (intro t' a i x chain rest h1; by_cases ht : t' = t <;> first | (subst ht; try simp [C, upd_apply, afterLists, nextList, chainUp_sound, Pc.copyVal] at h1 ⊢) | (try simp [ht, C, upd_apply, afterLists, nextList] at h1 ⊢))
-  all_goals grind [chainUp_sound, Pc.copyVal]
+  all_goals (try simp [Pc.pending, Pc.pending_walk, Pc.walkIdx, Pc.copyVal, Pc.inReg, nextList_pending, nextList_inReg, nextList_walkIdx, nextList_copyVal] at g2t)
+  all_goals (try rw [hi] at g4t)
+  all_goals (try simp [Pc.pending, Pc.pending_walk, Pc.walkIdx, Pc.copyVal, Pc.inReg, nextList_pending, nextList_inReg, nextList_walkIdx, nextList_copyVal] at g4t)
+  all_goals (try rw [hi] at g5t)
+  all_goals (try simp [Pc.pending, Pc.pending_walk, Pc.walkIdx, Pc.copyVal, Pc.inReg, nextList_pending, nextList_inReg, nextList_walkIdx, nextList_copyVal] at g5t)
+  all_goals (try rw [hi] at g6t)
+  all_goals (try simp [Pc.pending, Pc.pending_walk, Pc.walkIdx, Pc.copyVal, Pc.inReg, nextList_pending, nextList_inReg, nextList_walkIdx, nextList_copyVal] at g6t)
+  all_goals (try rw [hi] at g9t)
+  all_goals (try simp [Pc.pending, Pc.pending_walk, Pc.walkIdx, Pc.copyVal, Pc.inReg, nextList_pending, nextList_inReg, nextList_walkIdx, nextList_copyVal] at g9t)
+  all_goals (intro t' a i pend L z h1 h2 h3; by_cases ht : t' = t <;> first | (subst ht; (try simp only [upd_same, setPc_pc, finishCancel_pc, nextList_pending, nextList_inReg, nextList_walkIdx, nextList_copyVal] at h1 h2 h3 ⊢); try simp [C, St.eff, upd_apply, afterLists, Pc.pending, Pc.pending_walk, Pc.walkIdx, Pc.copyVal, Pc.inReg, nextList_pending, nextList_inReg, nextList_walkIdx, nextList_copyVal] at h1 h2 h3 ⊢) | (try simp [ht, C, St.eff, upd_apply, afterLists] at h1 h2 h3 ⊢))
+  all_goals grind [Pc.pending, Pc.pending_walk, Pc.walkIdx, Pc.copyVal, Pc.inReg, nextList_pending, nextList_inReg, nextList_walkIdx, nextList_copyVal , → Pc.pending_inReg, chain_none_not_anc, chain_some_head, anc_irrefl_s, anc_cas_back, ne_of_registered_created, List.mem_cons, List.mem_of_mem_erase, vf_upd_true, vf_upd_true_self, vf_reset, vf_exit, vf_can]
 
 end TbbVerif.C04
